@@ -125,45 +125,119 @@ func init() {
 			x.fail("Normal: the separator is not printed with fmt.Fprintln(w, \"---\")")
 		}
 
-		// ---- writeLines prefixes
-		prefixes := func(fn *ast.FuncDecl) (out []string) {
+		// ---- writeLines prefixes, per `switch e.Op` and per case: the ORDER of the cases of a switch on distinct
+		// constants is not semantic, the set of cases with each case's calls is
+		type caseCalls map[string][]string // case label → "prefix|argument" of its writeLines calls, in order
+		prefixes := func(fn *ast.FuncDecl) (out []caseCalls) {
 			ast.Inspect(fn, func(n ast.Node) bool {
-				if c, ok := n.(*ast.CallExpr); ok && x.Src(c.Fun) == "writeLines" && len(c.Args) == 3 {
-					s, err := litOf(c.Args[1])
-					if err != nil {
-						x.fail("%s: writeLines prefix is not a literal: %s", fn.Name.Name, x.Src(c.Args[1]))
+				sw, ok := n.(*ast.SwitchStmt)
+				if !ok || x.Src(sw.Tag) != "e.Op" {
+					return true
+				}
+				cc := caseCalls{}
+				for _, c := range sw.Body.List {
+					cl := c.(*ast.CaseClause)
+					label := "default"
+					if len(cl.List) == 1 {
+						label = x.Src(cl.List[0])
+					} else if len(cl.List) > 1 {
+						x.fail("%s: case with several values: %s", fn.Name.Name, x.Src(cl))
 					}
-					out = append(out, s+"|"+x.Src(c.Args[2]))
+					if _, dup := cc[label]; dup {
+						x.fail("%s: duplicate case %s", fn.Name.Name, label)
+					}
+					cc[label] = []string{}
+					for _, st := range cl.Body {
+						ast.Inspect(st, func(k ast.Node) bool {
+							if c, ok := k.(*ast.CallExpr); ok && x.Src(c.Fun) == "writeLines" && len(c.Args) == 3 {
+								s, err := litOf(c.Args[1])
+								if err != nil {
+									x.fail("%s: writeLines prefix is not a literal: %s", fn.Name.Name, x.Src(c.Args[1]))
+								}
+								cc[label] = append(cc[label], s+"|"+x.Src(c.Args[2]))
+							}
+							return true
+						})
+					}
+				}
+				out = append(out, cc)
+				return true
+			})
+			// every writeLines call must be inside such a switch
+			total, inSwitch := 0, 0
+			ast.Inspect(fn, func(n ast.Node) bool {
+				if c, ok := n.(*ast.CallExpr); ok && x.Src(c.Fun) == "writeLines" {
+					total++
 				}
 				return true
 			})
+			for _, cc := range out {
+				for _, v := range cc {
+					inSwitch += len(v)
+				}
+			}
+			if total != inSwitch {
+				x.fail("%s: a writeLines call outside `switch e.Op`", fn.Name.Name)
+			}
 			return
 		}
 		str := func(name, doc, v string) {
 			x.emit("/-- %s -/\ndef %s : String := %s\n", doc, name, strconv.Quote(v))
 		}
 		pfx := func(s string) string { return s[:strings.Index(s, "|")] }
-		if p := prefixes(unified); len(p) != 5 || !strings.HasSuffix(p[0], "|e.X") || !strings.HasSuffix(p[1], "|e.X") || !strings.HasSuffix(p[2], "|e.Y") || p[3] != p[0] || p[4] != p[2] {
-			x.fail("Unified: writeLines calls are not Drop X, Emit X, Copy Y, Replace X then Y: %v", p)
-		} else {
-			str("uniDrop", "`Unified`: prefix of a deleted line", pfx(p[0]))
-			str("uniEmit", "`Unified`: prefix of a context line", pfx(p[1]))
-			str("uniCopy", "`Unified`: prefix of an added line", pfx(p[2]))
+		one := func(cc caseCalls, label, arg string) (string, bool) {
+			v := cc[label]
+			if len(v) != 1 || !strings.HasSuffix(v[0], "|"+arg) {
+				return "", false
+			}
+			return pfx(v[0]), true
 		}
-		if p := prefixes(context); len(p) != 6 || !strings.HasSuffix(p[0], "|e.X") || !strings.HasSuffix(p[1], "|e.X") || !strings.HasSuffix(p[2], "|e.X") ||
-			!strings.HasSuffix(p[3], "|e.Y") || p[4] != p[1] || p[5] != pfx(p[2])+"|e.Y" {
-			x.fail("Context: writeLines calls are not (Drop X, Emit X, Replace X), (Copy Y, Emit X, Replace Y): %v", p)
+		const opDrop, opEmit, opCopy, opRepl = "slice.OpDrop", "slice.OpEmit", "slice.OpCopy", "slice.OpReplace"
+		if p := prefixes(unified); len(p) != 1 {
+			x.fail("Unified: expected one `switch e.Op`, found %d", len(p))
 		} else {
-			str("ctxDrop", "`Context`: prefix of a deleted line", pfx(p[0]))
-			str("ctxEmit", "`Context`: prefix of a context line", pfx(p[1]))
-			str("ctxRepl", "`Context`: prefix of a changed line", pfx(p[2]))
-			str("ctxCopy", "`Context`: prefix of an added line", pfx(p[3]))
+			dr, ok1 := one(p[0], opDrop, "e.X")
+			em, ok2 := one(p[0], opEmit, "e.X")
+			cp, ok3 := one(p[0], opCopy, "e.Y")
+			rp := p[0][opRepl]
+			if !ok1 || !ok2 || !ok3 || len(p[0]) != 4 || len(rp) != 2 || rp[0] != dr+"|e.X" || rp[1] != cp+"|e.Y" {
+				x.fail("Unified: writeLines calls are not Drop X, Emit X, Copy Y, Replace X then Y: %v", p)
+			} else {
+				str("uniDrop", "`Unified`: prefix of a deleted line", dr)
+				str("uniEmit", "`Unified`: prefix of a context line", em)
+				str("uniCopy", "`Unified`: prefix of an added line", cp)
+			}
 		}
-		if p := prefixes(normal); len(p) != 4 || !strings.HasSuffix(p[0], "|e.X") || !strings.HasSuffix(p[1], "|e.Y") || p[2] != p[0] || p[3] != p[1] {
-			x.fail("Normal: writeLines calls are not Drop X, Copy Y, Replace X then Y: %v", p)
+		if p := prefixes(context); len(p) != 2 {
+			x.fail("Context: expected two `switch e.Op`, found %d", len(p))
 		} else {
-			str("nrmDel", "`Normal`: prefix of a deleted line", pfx(p[0]))
-			str("nrmIns", "`Normal`: prefix of an added line", pfx(p[1]))
+			dr, ok1 := one(p[0], opDrop, "e.X")
+			em, ok2 := one(p[0], opEmit, "e.X")
+			rx, ok3 := one(p[0], opRepl, "e.X")
+			cp, ok4 := one(p[1], opCopy, "e.Y")
+			em2, ok5 := one(p[1], opEmit, "e.X")
+			ry, ok6 := one(p[1], opRepl, "e.Y")
+			if !ok1 || !ok2 || !ok3 || !ok4 || !ok5 || !ok6 || len(p[0]) != 3 || len(p[1]) != 3 || em2 != em || ry != rx {
+				x.fail("Context: writeLines calls are not (Drop X, Emit X, Replace X), (Copy Y, Emit X, Replace Y): %v", p)
+			} else {
+				str("ctxDrop", "`Context`: prefix of a deleted line", dr)
+				str("ctxEmit", "`Context`: prefix of a context line", em)
+				str("ctxRepl", "`Context`: prefix of a changed line", rx)
+				str("ctxCopy", "`Context`: prefix of an added line", cp)
+			}
+		}
+		if p := prefixes(normal); len(p) != 1 {
+			x.fail("Normal: expected one `switch e.Op`, found %d", len(p))
+		} else {
+			dl, ok1 := one(p[0], opDrop, "e.X")
+			in, ok2 := one(p[0], opCopy, "e.Y")
+			rp := p[0][opRepl]
+			if !ok1 || !ok2 || len(p[0][opEmit]) != 0 || len(rp) != 2 || rp[0] != dl+"|e.X" || rp[1] != in+"|e.Y" {
+				x.fail("Normal: writeLines calls are not Drop X, Copy Y, Replace X then Y: %v", p)
+			} else {
+				str("nrmDel", "`Normal`: prefix of a deleted line", dl)
+				str("nrmIns", "`Normal`: prefix of an added line", in)
+			}
 		}
 
 		// ---- parseSpan: the value returned for an omitted second number
